@@ -180,6 +180,32 @@ fn c05_case(p: &Pos, depth: u8, mode: &str, rs: &mut RefSearch, st: &mut Stats, 
     st.sample_tagged(&format!("{}{}", mode, depth), || {
         case_json(p, depth, mode, vec![("engine_score", J::i(score as i64)), ("reference", J::s(want.show())), ("engine_move", J::s(mv.map(|m| m.to_algebraic()).unwrap_or_default()))])
     });
+    // which kinds of move attain the reference value (coverage of "the rare move is the only good one")
+    {
+        let mut best: Vec<&Mv> = vec![];
+        for m in legal.iter() {
+            if let Ok(v) = rs.move_value(p, m, depth) {
+                if v == want {
+                    best.push(m);
+                }
+            }
+        }
+        if !best.is_empty() && best.len() < legal.len() {
+            use crate::oracle::MvKind;
+            if best.iter().all(|m| m.promo != 0 && m.promo != crate::oracle::Q) {
+                st.bump("value_attained_only_by_underpromotion");
+            }
+            if best.iter().all(|m| m.kind == MvKind::EnPassant) {
+                st.bump("value_attained_only_by_en_passant");
+            }
+            if best.iter().all(|m| m.kind == MvKind::CastleK || m.kind == MvKind::CastleQ) {
+                st.bump("value_attained_only_by_castling");
+            }
+            if best.len() == 1 {
+                st.bump("value_attained_by_a_single_move");
+            }
+        }
+    }
     let got = class(score);
     if got != want {
         st.violation(
@@ -278,12 +304,15 @@ fn c05_qwindow(p: &Pos, rng: &mut Rng, s: &mut Searcher, st: &mut Stats) {
 }
 
 fn c05_position(rng: &mut Rng, i: u64) -> Pos {
-    match i % 10 {
+    match i % 14 {
         0 | 1 | 2 | 3 => gen::g_game_pos(rng),
         4 => gen::corpus_pos(rng.below(gen::CORPUS.len() as u64) as usize),
         5 | 6 => gen::g_small(rng, 8),
         7 => gen::synth(rng),
         8 => gen::g_promo(rng),
+        9 | 10 => gen::g_underpromo(rng),
+        11 => gen::g_ep(rng),
+        12 => gen::g_castle(rng),
         _ => {
             // late game: long playout
             let n = rng.range(60, 160) as usize;
@@ -292,6 +321,22 @@ fn c05_position(rng: &mut Rng, i: u64) -> Pos {
         }
     }
 }
+
+/// Positions in which an under-promotion, an en-passant capture or castling is the only move that
+/// attains the value (stalemate traps, knight forks, mating castles).
+const STUDIES: &[&str] = &[
+    "8/k1P5/2K5/8/8/8/8/8 w - - 0 1",
+    "8/8/8/8/8/2k5/K1p5/8 b - - 0 1",
+    "5k2/5P1P/5K2/8/8/8/8/8 w - - 0 1",
+    "8/5P1k/5K2/8/8/8/8/8 w - - 0 1",
+    "6k1/4P3/6K1/8/8/8/8/8 w - - 0 1",
+    "8/8/8/8/8/6k1/4p3/6K1 b - - 0 1",
+    "2q5/1P3k2/8/8/8/8/8/K7 w - - 0 1",
+    "8/8/8/2k5/3Pp3/8/8/4K3 b - d3 0 1",
+    "k7/8/8/3pP3/8/8/8/K6b w - d6 0 1",
+    "r3k3/8/8/8/8/8/8/3K1R2 b q - 0 1",
+    "5rk1/8/8/8/8/8/8/R3K3 w Q - 0 1",
+];
 
 pub fn run_c05(ctx: &Ctx) -> i32 {
     let spec = Spec {
@@ -302,7 +347,7 @@ pub fn run_c05(ctx: &Ctx) -> i32 {
             "leaves are scored by the engine's own quiescence search on a full window (as the property defines the reference); that search is not itself compared with anything except for window consistency".into(),
             "depths above 5 and non-fresh engines are outside this check".into(),
         ],
-        required: if ctx.replay.is_some() { vec![] } else { vec!["judged_depth_1_id", "judged_depth_2_id", "judged_depth_3_id", "judged_depth_4_fixed", "cached_claims_audited", "claims_exact", "claims_lower", "claims_upper", "quiescence_windows_checked", "runs_with_same_depth_cached_result_returned"] },
+        required: if ctx.replay.is_some() { vec![] } else { vec!["judged_depth_1_id", "judged_depth_2_id", "judged_depth_3_id", "judged_depth_4_fixed", "cached_claims_audited", "claims_exact", "claims_lower", "claims_upper", "quiescence_windows_checked", "runs_with_same_depth_cached_result_returned", "value_attained_only_by_underpromotion", "value_attained_by_a_single_move"] },
         exhaustive: false,
         extra: vec![],
     };
@@ -346,6 +391,15 @@ pub fn run_c05(ctx: &Ctx) -> i32 {
                 let p = gen::corpus_pos(i);
                 let d = 1 + (i / ctx.workers % 3) as u8;
                 c05_case(&p, d, "id", &mut rs, &mut st, true);
+            }
+        }
+        // studies in which a rare move is the only good one, at every depth 1..3
+        for (i, fen) in STUDIES.iter().enumerate() {
+            if i % ctx.workers == w {
+                let p = Pos::from_fen(fen).expect("study fen");
+                for d in 1..=3u8 {
+                    c05_case(&p, d, "id", &mut rs, &mut st, true);
+                }
             }
         }
         let mut i = 0u64;
